@@ -36,3 +36,29 @@ def asym_model(rng, stochastic=False, **kw):
         if n != p and (m == 0 or n != m):
             return model, names, params
     return model, names, params
+
+
+def grow_ops(rng, model, names, params, evals, count=1, with_identity=False):
+    """A short history for the per-point properties: the model is extended (a process through an add_* route, or an
+    explicit ODE term) with already-declared states and parameters AFTER its evaluators were used, and observed
+    again in a random order - a model that was built in steps is a model too."""
+    ops = []
+    derived = [d[0] for d in model.get("derived", [])]
+    use = list(params) + derived
+    for _ in range(count):
+        if rng.random() < 0.75 or not names:
+            ev = gen.gen_event(rng, names, use, stochastic=False, symbolic_mag=True)
+            route = gen.choose_route(rng, ev, allow_add=False)
+            ops.append({"op": "add_process", "proc": ev, "route": "add_" + route})
+        else:
+            s_ = rng.choice(names)
+            ops.append({"op": "add_ode", "state": s_, "eq": rng.choice(["-%s*%s" % (rng.choice(use), s_), "0.07*%s" % rng.choice(names), "-0.3"])})
+        x, t, _ = gen.gen_point(rng, names, [])
+        evs = list(evals)
+        rng.shuffle(evs)
+        k = rng.choice([1, 2, len(evs)])
+        op = {"op": "eval", "names": evs[:k], "x": x, "t": t}
+        if with_identity:
+            op["identity"] = True
+        ops.append(op)
+    return ops
